@@ -147,6 +147,25 @@ impl Tree {
         1 + self.children().iter().map(|c| c.node_count()).sum::<usize>()
     }
 
+    /// total bytes of all field / variant / type names in the tree
+    pub fn name_bytes(&self) -> usize {
+        let mut n = 0;
+        self.visit(&mut |t| {
+            let data = |d: &TData| -> usize {
+                match d {
+                    TData::Struct(fs) => fs.iter().map(|(k, _)| k.len()).sum(),
+                    _ => 0,
+                }
+            };
+            match t {
+                Tree::Struct(name, d) => n += name.len() + data(d),
+                Tree::Enum(name, vs) => n += name.len() + vs.iter().map(|(k, d)| k.len() + data(d)).sum::<usize>(),
+                _ => {}
+            }
+        });
+        n
+    }
+
     pub fn depth(&self) -> usize {
         1 + self.children().iter().map(|c| c.depth()).max().unwrap_or(0)
     }
@@ -692,7 +711,7 @@ fn node_mutations(t: &Tree) -> Vec<(MutClass, Tree)> {
 
 // ------------------------------------------------------------------ generator
 
-const TREE_NAMES_SPECIAL: &[&str] = &["it's", "C:\\temp", "tab\there", "quo\"ted", "new\nline", "a\u{7f}b", "Kb", "KB", "kb", "Ω", "größe", "温度"];
+const TREE_NAMES_SPECIAL: &[&str] = &["it's", "C:\\temp", "tab\there", "quo\"ted", "new\nline", "a\u{7f}b", "Kb", "KB", "kb", "Ω", "größe", "温度", "r#type", "r#", "r#r#in", "type", "a/", "/", " lead", "trail "];
 const TREE_NAMES: &[&str] = &[
     "", "a", "b", "x", "y", "k", "q", "e", "m", "G", "O", "g", "qq", "qqq", "id", "len", "data", "Point", "Result<T, E>", "Range<T>",
     "Foo", "Bar", "Ok", "Err", "héllo", "名前", "naïve_field", "with space", "A", "B", "C", "zz",
@@ -700,13 +719,18 @@ const TREE_NAMES: &[&str] = &[
 
 pub fn arb_tree_name() -> BoxedStrategy<String> {
     prop_oneof![
-        20 => any::<u16>().prop_map(|r| TREE_NAMES[crate::gen::pick_idx(r, TREE_NAMES.len())].to_string()),
-        1 => (any::<u8>(), 100usize..300).prop_map(|(c, n)| ((b'a' + c % 26) as char).to_string().repeat(n)),
-        2 => any::<u16>().prop_map(|r| TREE_NAMES_SPECIAL[crate::gen::pick_idx(r, TREE_NAMES_SPECIAL.len())].to_string()),
+        240 => any::<u16>().prop_map(|r| TREE_NAMES[crate::gen::pick_idx(r, TREE_NAMES.len())].to_string()),
+        12 => (any::<u8>(), 100usize..300).prop_map(|(c, n)| ((b'a' + c % 26) as char).to_string().repeat(n)),
+        24 => any::<u16>().prop_map(|r| TREE_NAMES_SPECIAL[crate::gen::pick_idx(r, TREE_NAMES_SPECIAL.len())].to_string()),
         // long names mixing one-, two-, three- and four-byte characters at arbitrary offsets
-        1 => proptest::collection::vec(prop_oneof![4 => Just('x'), 1 => Just('é'), 1 => Just('名'), 1 => Just('\u{1F600}')], 20..200)
+        12 => proptest::collection::vec(prop_oneof![4 => Just('x'), 1 => Just('é'), 1 => Just('名'), 1 => Just('\u{1F600}')], 20..200)
             .prop_map(|cs| cs.into_iter().collect::<String>()),
-        2 => "[a-zA-Z_][a-zA-Z0-9_]{0,8}".prop_map(|s| s),
+        24 => "[a-zA-Z_][a-zA-Z0-9_]{0,8}".prop_map(|s| s),
+        // names whose length prefix needs three varint bytes (rare: they are big)
+        1 => (any::<u16>(), any::<u8>()).prop_map(|(r, c)| {
+            const L: [usize; 9] = [16383, 16384, 16385, 32767, 32768, 40000, 49152, 65536, 70000];
+            ((b'a' + c % 26) as char).to_string().repeat(L[crate::gen::pick_idx(r, L.len())])
+        }),
     ]
     .boxed()
 }
@@ -902,6 +926,33 @@ pub fn arb_deep_mixed_chain(max_depth: usize) -> BoxedStrategy<Tree> {
                 };
             }
             t
+        })
+        .boxed()
+}
+
+/// Tuples (and struct / variant field lists) in which directly adjacent elements are structs or enums of the *same
+/// name* but different bodies (`Tagged<u8>` next to `Tagged<String>`, `v1::Config` next to `v2::Config`).
+pub fn arb_same_name_neighbours() -> BoxedStrategy<Tree> {
+    let small = arb_tree(TreeCfg { depth: 2, width: 3, exotic: true });
+    (arb_tree_name(), small.clone(), small.clone(), small, 0..6u8, proptest::collection::vec(0..4usize, 0..3))
+        .prop_map(|(name, a, b, c, kind, pre)| {
+            let mk = |body: Tree, k: u8| -> Tree {
+                match k % 3 {
+                    0 => Tree::Struct(name.clone(), TData::Newtype(Box::new(body))),
+                    1 => Tree::Struct(name.clone(), TData::Struct(vec![("value".to_string(), body), ("n".to_string(), Tree::U8)])),
+                    _ => Tree::Enum(name.clone(), vec![("Ok".to_string(), TData::Newtype(Box::new(body))), ("Err".to_string(), TData::Unit)]),
+                }
+            };
+            let (x, y, z) = (mk(a, kind), mk(b, kind), mk(c, kind + 1));
+            let mut items: Vec<Tree> = pre.into_iter().map(|i| LEAVES[i].clone()).collect();
+            items.extend([x, y, z]);
+            match kind {
+                0 | 1 => Tree::Tuple(items),
+                2 => Tree::Struct("Holder".into(), TData::Tuple(items)),
+                3 => Tree::Struct("Holder".into(), TData::Struct(items.into_iter().enumerate().map(|(i, t)| (format!("f{}", i), t)).collect())),
+                4 => Tree::Enum("HolderE".into(), vec![("V".to_string(), TData::Tuple(items))]),
+                _ => Tree::Seq(Box::new(Tree::Tuple(items))),
+            }
         })
         .boxed()
 }
